@@ -72,14 +72,19 @@ func LabFactoryInit() []byte {
 }
 
 // LabConverterInit: the converter's runtime converts three quarters of the value it is called
-// with to Qi for the 20-byte Qi address given as calldata (CONVERT opcode, 100000 destination gas;
+// with (in two conversions of three eighths each) to Qi for the 20-byte Qi address given as calldata (CONVERT opcode, 100000 destination gas;
 // the rest of the value pays the prepaid destination fee, the remainder stays on the contract).
 func LabConverterInit() []byte {
 	r := evmgen.NewAsm()
-	r.Push(100000)
-	r.Push(4).Push(3).Op(vm.CALLVALUE, vm.MUL, vm.DIV) // value*3/4
-	r.Push(96).Push(0).Op(vm.CALLDATALOAD, vm.SWAP1, vm.SHR)
-	r.Push(0).Op(vm.CONVERT, vm.POP, vm.STOP)
+	// two conversions of three eighths of the value each: both outbound transactions carry the
+	// same originating transaction hash (indices n, n+1), as the outputs of one Qi transaction do
+	for i := 0; i < 2; i++ {
+		r.Push(100000)
+		r.Push(8).Push(3).Op(vm.CALLVALUE, vm.MUL, vm.DIV) // value*3/8
+		r.Push(96).Push(0).Op(vm.CALLDATALOAD, vm.SWAP1, vm.SHR)
+		r.Push(0).Op(vm.CONVERT, vm.POP)
+	}
+	r.Op(vm.STOP)
 	rt := r.Assemble().Code
 	a := evmgen.NewAsm()
 	a.DataToMem(a.Data(rt, "runtime"), 0)
